@@ -419,7 +419,14 @@ func (c11) Exec(c *core.Case) (out *core.Outcome) {
 			if c.Cfg.Sidecar {
 				store = "sidecar"
 			}
-			o.Violate("crash-inconsistency", fmt.Sprintf("C11/%s/%s/%s", c11OpOf(p.Scenario), c11Anomaly(d), store),
+			// the crash window (function@callee of the step the kill came before, and of the last mutating step
+			// before it; no ordinals, no line numbers) is part of the signature: a new window with a symptom that
+			// is already listed for another window is a different finding
+			where := strings.ReplaceAll(stripIdx(pt.site), " ", "_")
+			if pt.tear >= 0 {
+				where += "[torn]"
+			}
+			o.Violate("crash-inconsistency", fmt.Sprintf("C11/%s/%s/%s/%s", c11OpOf(p.Scenario), c11Anomaly(d), store, where),
 				"scenario %s (%s), kill before step %d %s [%s]: %s", p.Scenario, cfgc, pt.step, pt.desc, pt.site, d)
 			if o.Sample == nil {
 				o.Sample = map[string]any{"scenario": p, "crash_point": pt.desc, "site": pt.site}
